@@ -617,6 +617,12 @@ where
                 set_current_route_locale(locale);
                 StaticSegment(locale.as_str())
                     .test(path)
+                    // `StaticSegment` also matches the start of a longer segment ("/en-US" or "/english" for "en"),
+                    // the locale prefix must be a whole segment.
+                    .filter(|partial_path_match| {
+                        let remaining = partial_path_match.remaining();
+                        remaining.is_empty() || remaining.starts_with('/')
+                    })
                     .and_then(|partial_path_match| {
                         let remaining = partial_path_match.remaining();
                         let matched = partial_path_match.matched();
